@@ -54,11 +54,11 @@ structure Src (accts : List Acct) (groups : List (Nat × List Acct)) (L : List (
   retq : ∀ e ∈ c1.iqReg, ∀ n' w c, e.2 = Cont.keysForRetry n' w c → isGroupDest n'.dest = true → n' ∈ c1.sentQueue
 
 section Dst
-variable {accts : List Acct} {groups : List (Nat × List Acct)} {L : List (Acct × Node)} {V : View} {x : Acct}
+variable {ex : Bool} {accts : List Acct} {groups : List (Nat × List Acct)} {L : List (Acct × Node)} {V : View} {x : Acct}
   {cons rest : List Stanza} {c1 : Client} {n : Node} {who : Option Acct}
 
 /-- the token goes into a new continuation -/
-theorem Src.toCont (h : TV accts groups L V) (hs : Src accts groups L V x cons rest c1 n who) (k1 : Cont)
+theorem Src.toCont (h : TV ex accts groups L V) (hs : Src accts groups L V x cons rest c1 n who) (k1 : Cont)
     (pre : List Stanza) (st : Stanza) (hpre : ∀ p ∈ pre, PlainUp p ∧ stanzaIq p = none) (hst : PlainUp st)
     (hiq : stanzaIq st = some c1.nextIq)
     (htok : ∀ id r, contTok id r k1 = handTok n who id r) (hslot : ∀ i, slotTok i k1 = handSlot n who i)
@@ -202,7 +202,7 @@ theorem FreshMsg.unop {lo k : Nat} {st : Stanza} (hf : FreshMsg lo k st) (groups
   exact hf.fresh m (List.count_pos_iff.mp this)
 
 /-- the message is sent to all its recipients and kept in the sent queue -/
-theorem Src.toFirst (h : TV accts groups L V) (hs : Src accts groups L V x cons rest c1 n who)
+theorem Src.toFirst (h : TV ex accts groups L V) (hs : Src accts groups L V x cons rest c1 n who)
     (hall : ∀ r, r ∈ intendedG groups x n → who = none ∨ who = some r)
     (hslotc : who = none ∨ isGroupDest n.dest = false)
     (sk : List (Nat × Nat)) (encs : List (Option Acct × Ct)) (k : Nat) (hk : V.nextCtr ≤ k)
@@ -296,7 +296,7 @@ theorem Src.toFirst (h : TV accts groups L V) (hs : Src accts groups L V x cons 
     unop_out := fun r _ m => hf.unop groups r m }
 
 /-- the message is sent again to one participant of a group -/
-theorem Src.toRetry (h : TV accts groups L V) {w : Acct} (hs : Src accts groups L V x cons rest c1 n (some w))
+theorem Src.toRetry (h : TV ex accts groups L V) {w : Acct} (hs : Src accts groups L V x cons rest c1 n (some w))
     (hin : n ∈ c1.sentQueue)
     (sk : List (Nat × Nat)) (encs : List (Option Acct × Ct)) (k : Nat) (hk : V.nextCtr ≤ k)
     (hmono : ∀ g, (lookup c1.ownSK g).isSome = true → (lookup sk g).isSome = true)
